@@ -59,3 +59,16 @@ def lvars(ts):
     for t in ts:
         s |= set(t[0].keys())
     return s
+
+
+def dedupe(gen):
+    """drop exact duplicates (by canonical JSON) from a family generator, keeping first occurrences"""
+    import json
+
+    seen = set()
+    for c in gen:
+        k = hash(json.dumps(c, sort_keys=True, separators=(",", ":")))
+        if k in seen:
+            continue
+        seen.add(k)
+        yield c
